@@ -145,6 +145,9 @@ def _scan_loops(fn):
     return out
 
 
+_ROLES: dict = {}
+
+
 def _scan_table(repo, report, name, loop, sumvar, fn, kind, cutoff_name, expect_index):
     """kind: '5p' | '3p' | 'nextseq'"""
     iv = loop.target.id
@@ -159,7 +162,7 @@ def _scan_table(repo, report, name, loop, sumvar, fn, kind, cutoff_name, expect_
             idx = s.targets[0].id
     if best is None or idx is None:
         report.unrecognised("C13.R3", name, f"best/index variables not identified (best={best}, index={idx})", repo.loc(loop))
-        return
+        return None
     env[best] = Lin.atom("BEST")
     env[idx] = Lin.atom("IDX")
     for p in params(fn):
@@ -215,6 +218,7 @@ def _scan_table(repo, report, name, loop, sumvar, fn, kind, cutoff_name, expect_
             want = Lin.atom("I") + (1 if expect_index == "i+1" else 0)
             if r.env[idx] != want:
                 bad.append(("recorded index", vkey(r.env[idx]), want.key()))
+    _ROLES[name] = {"sum": sumvar, "best": best, "index": idx}
     report.ob("C13.R3", name, not bad, facts={"rows": len(rows), "problems": [str(b)[:240] for b in bad[:3]]},
               expected=f"sum += cutoff - (q - base){' (q = cutoff - 1 for G)' if kind == 'nextseq' else ''}; stop iff sum < 0; new optimum iff sum > best, index = {expect_index}", loc=repo.loc(loop), cases=len(rows),
               why=str(bad[0])[:240] if bad else "")
@@ -227,7 +231,7 @@ def r3_scans(repo, report):
         raise Unrecognised(f"quality_trim_index: expected two scans, found {len(loops)}", repo.loc(q))
     (l5, s5), (l3, s3) = loops
     # directions
-    ok_dir = src(l5.iter) == "range(n)" and src(l3.iter) == "reversed(range(n))"
+    ok_dir = src(l5.iter).startswith("range(") and src(l3.iter) == f"reversed({src(l5.iter)})"
     report.ob("C13.R3", "quality_trim_index: scan directions", ok_dir, facts={"first": src(l5.iter), "second": src(l3.iter)}, expected="5' scan over range(n), 3' scan over reversed(range(n))", loc=repo.loc(q))
     # which cutoff each scan uses
     c5 = [x.id for x in ast.walk(l5.body[0]) if isinstance(x, ast.Name) and x.id.startswith("cutoff")]
@@ -247,10 +251,16 @@ def r3_scans(repo, report):
                     vals[t.id] = src(s.value)
         return vals
     v5, v3 = inits_before(l5), inits_before(l3)
-    ok = v5.get("s") == "0" and v5.get("max_qual") == "0" and v5.get("start") == "0" and v3.get("s") == "0" and v3.get("max_qual") == "0" and v3.get("stop") == "n" and v5.get("n") == "len(qualities)"
-    report.ob("C13.R3", "quality_trim_index: initial values", ok, facts={"before_5p": {k: v5.get(k) for k in ("s", "max_qual", "start")}, "before_3p": {k: v3.get(k) for k in ("s", "max_qual", "stop")}}, expected="sum and best reset to 0 before each scan; start = 0, stop = n", loc=repo.loc(q))
+    r5, r3 = _ROLES.get("quality_trim_index: 5' scan"), _ROLES.get("quality_trim_index: 3' scan")
+    if r5 is None or r3 is None:
+        report.unrecognised("C13.R3", "quality_trim_index: initial values", "scan roles not identified", repo.loc(q))
+    else:
+        nvar = [k for k, v in v5.items() if v == f"len({params(q)[0]})"]
+        ok = v5.get(r5["sum"]) == "0" and v5.get(r5["best"]) == "0" and v5.get(r5["index"]) == "0" and v3.get(r3["sum"]) == "0" and v3.get(r3["best"]) == "0" and len(nvar) == 1 and v3.get(r3["index"]) == nvar[0] and src(l5.iter) == f"range({nvar[0]})"
+        report.ob("C13.R3", "quality_trim_index: initial values", ok, facts={"before_5p": {k: v5.get(v) for k, v in r5.items()}, "before_3p": {k: v3.get(v) for k, v in r3.items()}}, expected="sum and best reset to 0 before each scan; start = 0, stop = n", loc=repo.loc(q))
     tail = body[body.index(l3) + 1:]
-    rows = explore(repo, tail, {"start": Lin.atom("START"), "stop": Lin.atom("STOP")}, inline=False)
+    r5, r3 = _ROLES.get("quality_trim_index: 5' scan") or {"index": "start"}, _ROLES.get("quality_trim_index: 3' scan") or {"index": "stop"}
+    rows = explore(repo, tail, {r5["index"]: Lin.atom("START"), r3["index"]: Lin.atom("STOP")}, inline=False)
     roles = {"d": Sign(Lin.atom("START") - Lin.atom("STOP"))}
     mism, n, _ = check_table(rows, roles, lambda rv: "(0, 0)" if rv["d"] >= 0 else "(START, STOP)", lambda r: vkey(r.exit[1]) if r.exit[0] == "return" else r.exit[0])
     report.ob("C13.R3", "quality_trim_index: combination of both ends", not mism, facts={"mismatches": mism}, expected="(0, 0) iff start >= stop, else (start, stop)", loc=repo.loc(tail[0]) if tail else repo.loc(q), cases=n)
@@ -270,7 +280,12 @@ def r3_scans(repo, report):
             t = s.targets[0] if isinstance(s, ast.Assign) else s.target
             if isinstance(t, ast.Name) and getattr(s, "value", None) is not None:
                 v[t.id] = src(s.value)
-    report.ob("C13.R3", "nextseq_trim_index: initial values and result", v.get("s") == "0" and v.get("max_qual") == "0" and v.get("max_i") == "len(qualities)" and rets == ["max_i"], facts={k: v.get(k) for k in ("s", "max_qual", "max_i")} | {"returns": rets}, expected="sum = best = 0, index = len(qualities); returns the index", loc=repo.loc(nx))
+    rn = _ROLES.get("nextseq_trim_index: 3' scan with G substitution")
+    if rn is None:
+        report.unrecognised("C13.R3", "nextseq_trim_index: initial values and result", "scan roles not identified", repo.loc(nx))
+    else:
+        ok = v.get(rn["sum"]) == "0" and v.get(rn["best"]) == "0" and (v.get(rn["index"]) or "").startswith("len(") and rets == [rn["index"]]
+        report.ob("C13.R3", "nextseq_trim_index: initial values and result", ok, facts={k: v.get(n_) for k, n_ in rn.items()} | {"returns": rets}, expected="sum = best = 0, index = len(qualities); returns the index", loc=repo.loc(nx))
     # R4: base only shifts the scale
     for fn_, label in ((q, "quality_trim_index"), (nx, "nextseq_trim_index")):
         uses = []
